@@ -470,34 +470,58 @@ Qed.
     [(rx, ry)] and tolerance [tol] satisfies *)
 Definition grid_props (B : bbox) (snap : option (Q * Q)) (rx ry tol : Q) (g : gbox) : Prop :=
   aa (g_aff g) == rx /\ ae (g_aff g) == ry /\ ab (g_aff g) == 0 /\ ad (g_aff g) == 0 /\
-  axis_props (bl B) (br B) rx (option_map fst snap) tol (g_x0 g) (g_nx g) /\
-  axis_props (bb B) (bt B) ry (option_map snd snap) tol (g_y0 g) (g_ny g).
+  axis_props (bl B) (br B) (aa (g_aff g)) (option_map fst snap) tol (g_x0 g) (g_nx g) /\
+  axis_props (bb B) (bt B) (ae (g_aff g)) (option_map snd snap) tol (g_y0 g) (g_ny g).
 
-Lemma axis_props_ext x0 x1 rs off tol tx tx' n :
-  tx' == tx -> axis_props x0 x1 rs off tol tx n ->
-  axis_props x0 x1 rs off tol tx' n.
+Lemma Qltb_ext x y y' : y' == y -> Qltb x y' = Qltb x y.
 Proof.
-  intros E H. unfold axis_props in *. cbv zeta in *.
-  assert (L : axis_lo tx' n rs == axis_lo tx n rs).
-  { unfold axis_lo, qmin.
-    destruct (Qle_bool tx' (tx' + inject_Z n * rs)) eqn:E1; destruct (Qle_bool tx (tx + inject_Z n * rs)) eqn:E2;
-      try (apply Qle_bool_true in E1); try (apply Qle_bool_true in E2);
-      try (apply Qle_bool_false in E1); try (apply Qle_bool_false in E2); lra. }
-  assert (Hh : axis_hi tx' n rs == axis_hi tx n rs).
-  { unfold axis_hi, qmax.
-    destruct (Qle_bool tx' (tx' + inject_Z n * rs)) eqn:E1; destruct (Qle_bool tx (tx + inject_Z n * rs)) eqn:E2;
-      try (apply Qle_bool_true in E1); try (apply Qle_bool_true in E2);
-      try (apply Qle_bool_false in E1); try (apply Qle_bool_false in E2); lra. }
-  set (lo' := axis_lo tx' n rs) in *. set (hi' := axis_hi tx' n rs) in *.
+  intros E. destruct (Qltb x y) eqn:H.
+  - apply Qltb_true in H. apply Qltb_true. lra.
+  - apply Qltb_false in H. apply Qltb_false. lra.
+Qed.
+
+Lemma axis_lo_ext tx tx' n rs rs' : tx' == tx -> rs' == rs -> axis_lo tx' n rs' == axis_lo tx n rs.
+Proof.
+  intros E F. assert (G : inject_Z n * rs' == inject_Z n * rs) by (rewrite F; reflexivity).
+  unfold axis_lo, qmin.
+  destruct (Qle_bool tx' (tx' + inject_Z n * rs')) eqn:E1; destruct (Qle_bool tx (tx + inject_Z n * rs)) eqn:E2;
+    try (apply Qle_bool_true in E1); try (apply Qle_bool_true in E2);
+    try (apply Qle_bool_false in E1); try (apply Qle_bool_false in E2); lra.
+Qed.
+
+Lemma axis_hi_ext tx tx' n rs rs' : tx' == tx -> rs' == rs -> axis_hi tx' n rs' == axis_hi tx n rs.
+Proof.
+  intros E F. assert (G : inject_Z n * rs' == inject_Z n * rs) by (rewrite F; reflexivity).
+  unfold axis_hi, qmax.
+  destruct (Qle_bool tx' (tx' + inject_Z n * rs')) eqn:E1; destruct (Qle_bool tx (tx + inject_Z n * rs)) eqn:E2;
+    try (apply Qle_bool_true in E1); try (apply Qle_bool_true in E2);
+    try (apply Qle_bool_false in E1); try (apply Qle_bool_false in E2); lra.
+Qed.
+
+Lemma axis_props_ext x0 x1 rs rs' off tol tx tx' n :
+  tx' == tx -> rs' == rs -> axis_props x0 x1 rs off tol tx n ->
+  axis_props x0 x1 rs' off tol tx' n.
+Proof.
+  intros E F H. unfold axis_props in *. cbv zeta in *.
+  pose proof (axis_lo_ext tx tx' n rs rs' E F) as L.
+  pose proof (axis_hi_ext tx tx' n rs rs' E F) as Hh.
+  assert (A : Qabs rs' == Qabs rs) by (rewrite F; reflexivity).
+  rewrite (Qltb_ext 0 rs rs' F).
+  set (lo' := axis_lo tx' n rs') in *. set (hi' := axis_hi tx' n rs') in *.
   set (lo := axis_lo tx n rs) in *. set (hi := axis_hi tx n rs) in *.
+  set (a' := Qabs rs') in *. set (a := Qabs rs) in *.
   destruct H as (H0 & H1 & H2 & H3 & H4 & H5 & H6 & H7 & H8 & H9 & H10).
-  split; [exact H0|]. split; [exact H1|].
+  assert (M : forall c, c * a' == c * a) by (intros c; rewrite A; reflexivity).
+  pose proof (M tol) as M1. pose proof (M (1 # 2)) as M2. pose proof (M (inject_Z n)) as M3.
+  split; [exact H0|]. split; [lra|].
   split; [lra|]. split; [lra|]. split; [lra|]. split; [lra|]. split; [lra|].
   split. { destruct H7 as [H7|H7]; [left; lra|right; exact H7]. }
   split; [lra|].
   split. { destruct (Qltb 0 rs); lra. }
   destruct off as [o|].
-  - intros i. destruct (H10 i) as (k & Hk). exists k. lra.
+  - intros i. destruct (H10 i) as (k & Hk). exists k.
+    pose proof (M (inject_Z k + o)) as M4.
+    assert (inject_Z i * rs' == inject_Z i * rs) by (rewrite F; reflexivity). lra.
   - rewrite E. exact H10.
 Qed.
 
@@ -513,6 +537,190 @@ Proof.
   unfold grid_props, g_x0, g_y0. cbn [g_aff g_nx g_ny].
   split; [exact A1|]. split; [exact A5|]. split; [exact A2|]. split; [exact A4|].
   split.
-  - apply (axis_props_ext _ _ _ _ _ offx); [exact A3|exact P1].
-  - apply (axis_props_ext _ _ _ _ _ offy); [exact A6|exact P2].
+  - apply (axis_props_ext _ _ rx _ _ _ offx); [exact A3|exact A1|exact P1].
+  - apply (axis_props_ext _ _ ry _ _ _ offy); [exact A6|exact A5|exact P2].
+Qed.
+
+(** * compute_output_geobox: decision table *)
+
+Definition shortcut (s : src) (dst : Z) (rq : res_req) (shape : option shape_req) (anc : anchor) : bool :=
+  Z.eqb dst (s_crs s) && is_auto_or_same rq && is_none shape && is_default_anchor anc && s_isgeobox s.
+
+Lemma cog_unfold s dst du B fit rq shape tight anc tol rr :
+  compute_output_geobox s dst du B fit rq shape tight anc tol rr =
+  if shortcut s dst rq shape anc then Ok OSame
+  else r <- choose_resolution s du fit rq shape rr ;;
+       g <- from_bbox B dst tight shape r anc tol ;; Ok (ONew g).
+Proof. reflexivity. Qed.
+
+Lemma shortcut_true_iff s dst rq shape anc :
+  shortcut s dst rq shape anc = true <->
+  dst = s_crs s /\ (rq = RAuto \/ rq = RSame) /\ shape = None /\ anc = AStr SDefault /\ s_isgeobox s = true.
+Proof.
+  unfold shortcut. rewrite !andb_true_iff, Z.eqb_eq. split.
+  - intros ((((H1 & H2) & H3) & H4) & H5). split; [exact H1|].
+    split. { destruct rq; simpl in H2; try discriminate; auto. }
+    split. { destruct shape; simpl in H3; [discriminate|reflexivity]. }
+    split; [|exact H5].
+    destruct anc as [| | | | |[]]; simpl in H4; try discriminate. reflexivity.
+  - intros (H1 & H2 & H3 & H4 & H5). subst. destruct H2; subst; simpl; auto.
+Qed.
+
+(** same CRS + default options: the input object itself, whatever tight/tol/round_resolution *)
+Lemma cog_identity s du B fit rq tight tol rr :
+  s_isgeobox s = true -> rq = RAuto \/ rq = RSame ->
+  compute_output_geobox s (s_crs s) du B fit rq None tight (AStr SDefault) tol rr = Ok OSame.
+Proof.
+  intros H1 H2. rewrite cog_unfold.
+  assert (E : shortcut s (s_crs s) rq None (AStr SDefault) = true) by (apply shortcut_true_iff; auto).
+  rewrite E. reflexivity.
+Qed.
+
+Lemma cog_same_only s dst du B fit rq shape tight anc tol rr :
+  compute_output_geobox s dst du B fit rq shape tight anc tol rr = Ok OSame ->
+  dst = s_crs s /\ (rq = RAuto \/ rq = RSame) /\ shape = None /\ anc = AStr SDefault /\ s_isgeobox s = true.
+Proof.
+  rewrite cog_unfold. destruct (shortcut s dst rq shape anc) eqn:E.
+  - intros _. apply shortcut_true_iff. exact E.
+  - intros H. apply bind_ok in H. destruct H as (r & _ & H).
+    apply bind_ok in H. destruct H as (g & _ & H). discriminate.
+Qed.
+
+Lemma cog_new_inv s dst du B fit rq shape tight anc tol rr g :
+  compute_output_geobox s dst du B fit rq shape tight anc tol rr = Ok (ONew g) ->
+  exists r, choose_resolution s du fit rq shape rr = Ok r /\ from_bbox B dst tight shape r anc tol = Ok g.
+Proof.
+  rewrite cog_unfold. destruct (shortcut s dst rq shape anc); [discriminate|].
+  intros H. apply bind_ok in H. destruct H as (r & H1 & H).
+  apply bind_ok in H. destruct H as (g' & H2 & H). injection H as <-. eauto.
+Qed.
+
+(** the resolution rounding hook *)
+Definition rounded (rr : rr_mode) (fit : Q) : Q :=
+  match rr with
+  | RRNone | RRBool false => fit
+  | RRBool true => inject_Z (round_half_even fit)
+  | RRFun f => f fit
+  end.
+
+(** the decision table for the pixel size, when no shape is requested *)
+Definition chosen (s : src) (du : Z) (fit : Q) (rq : res_req) (rr : rr_mode) : res (Q * Q) :=
+  match rq with
+  | RSame => Ok (s_res s)
+  | RAuto => if Z.eqb (s_units s) du then Ok (s_res s) else Ok (rounded rr fit, - rounded rr fit)
+  | RFit => Ok (rounded rr fit, - rounded rr fit)
+  | RStr => Err EValue
+  | RNum q => Ok (q, - q)
+  | RXY x y => Ok (x, y)
+  end.
+
+Lemma choose_resolution_none s du fit rq rr :
+  choose_resolution s du fit rq None rr =
+  match chosen s du fit rq rr with Ok r => Ok (Some r) | Err e => Err e end.
+Proof.
+  unfold choose_resolution, chosen, rounded, res_. simpl.
+  destruct rq; try reflexivity; try (destruct (Z.eqb (s_units s) du)); try reflexivity;
+    destruct rr as [|[]|]; reflexivity.
+Qed.
+
+Lemma choose_resolution_shape s du fit rq sh rr :
+  choose_resolution s du fit rq (Some sh) rr = Ok None.
+Proof. reflexivity. Qed.
+
+(** invalid resolution string: ValueError (unless a shape is given) *)
+Lemma cog_bad_string s dst du B fit tight anc tol rr :
+  compute_output_geobox s dst du B fit RStr None tight anc tol rr = Err EValue.
+Proof.
+  rewrite cog_unfold.
+  assert (E : shortcut s dst RStr None anc = false).
+  { unfold shortcut. simpl. rewrite andb_false_r. reflexivity. }
+  rewrite E. reflexivity.
+Qed.
+
+(** * Resolution-driven and single-number-shape results *)
+
+Definition not_yx (shape : option shape_req) : Prop :=
+  match shape with Some (ShapeYX _ _) => False | _ => True end.
+
+Lemma cog_grid s dst du B fit rq shape tight anc tol rr g :
+  compute_output_geobox s dst du B fit rq shape tight anc tol rr = Ok (ONew g) ->
+  not_yx shape -> valid_box B -> 0 <= tol ->
+  exists na rx ry,
+    norm_anchor anc = Ok na /\ g_crs g = dst /\
+    grid_props B (snap_of tight na) rx ry tol g /\
+    match shape with
+    | None => chosen s du fit rq rr = Ok (rx, ry)
+    | Some (ShapeN n) => n <> 0%Z /\ rx = longest_res B n /\ ry = - longest_res B n
+    | _ => False
+    end.
+Proof.
+  intros H NY V Ht. apply cog_new_inv in H. destruct H as (r & H1 & H2).
+  destruct shape as [[n|ny nx]|]; [| destruct NY |].
+  - rewrite from_bbox_shapeN in H2.
+    apply bind_ok in H2. destruct H2 as (na & Ha & H2).
+    apply bind_ok in H2. destruct H2 as (u1 & _ & H2).
+    apply bind_ok in H2. destruct H2 as (u2 & Hn & H2).
+    destruct (build_props _ _ _ _ _ _ _ H2 V Ht) as [C P].
+    exists na, (longest_res B n), (- longest_res B n).
+    split; [exact Ha|]. split; [exact C|]. split; [exact P|]. split; [|split; reflexivity].
+    destruct (Z.eqb n 0) eqn:E; simpl in Hn; [discriminate|]. apply Z.eqb_neq in E. exact E.
+  - rewrite choose_resolution_none in H1.
+    destruct (chosen s du fit rq rr) as [[rx ry]|e] eqn:Ec; [|discriminate].
+    injection H1 as <-. rewrite from_bbox_resolution in H2.
+    apply bind_ok in H2. destruct H2 as (na & Ha & H2).
+    destruct (build_props _ _ _ _ _ _ _ H2 V Ht) as [C P].
+    exists na, rx, ry. split; [exact Ha|]. split; [exact C|]. split; [exact P|]. reflexivity.
+Qed.
+
+(** * Statements about a result grid *)
+Definition px (g : gbox) : Q := Qabs (aa (g_aff g)).
+Definition py (g : gbox) : Q := Qabs (ae (g_aff g)).
+
+Definition axis_aligned (g : gbox) : Prop := ab (g_aff g) == 0 /\ ad (g_aff g) == 0.
+
+(** the grid covers box [B] except at most [tol] pixel per side *)
+Definition covers (B : bbox) (tol : Q) (g : gbox) : Prop :=
+  g_left g <= bl B + tol * px g /\ br B - tol * px g <= g_right g /\
+  g_bottom g <= bb B + tol * py g /\ bt B - tol * py g <= g_top g.
+
+(** ... and is less than one pixel larger than necessary on every side
+    (a side of exactly one pixel is the documented minimum) *)
+Definition snug (B : bbox) (g : gbox) : Prop :=
+  bl B - px g < g_left g /\ (g_right g < br B + px g \/ g_nx g = 1%Z) /\
+  bb B - py g < g_bottom g /\ (g_top g < bt B + py g \/ g_ny g = 1%Z).
+
+(** every pixel edge sits at (integer + anchor fraction) * pixel size *)
+Definition aligned (sx sy : Q) (g : gbox) : Prop :=
+  forall i : Z,
+    (exists k : Z, g_x0 g + inject_Z i * aa (g_aff g) == (inject_Z k + sx) * px g) /\
+    (exists k : Z, g_y0 g + inject_Z i * ae (g_aff g) == (inject_Z k + sy) * py g).
+
+(** no snapping: the grid starts exactly at the box corner its orientation dictates *)
+Definition starts_at_box (B : bbox) (g : gbox) : Prop :=
+  g_x0 g == (if Qltb 0 (aa (g_aff g)) then bl B else br B) /\
+  g_y0 g == (if Qltb 0 (ae (g_aff g)) then bb B else bt B).
+
+Definition alignment_as_requested (B : bbox) (snap : option (Q * Q)) (g : gbox) : Prop :=
+  match snap with
+  | Some (sx, sy) => aligned sx sy g
+  | None => starts_at_box B g
+  end.
+
+Lemma grid_props_facts B snap rx ry tol g :
+  grid_props B snap rx ry tol g ->
+  aa (g_aff g) == rx /\ ae (g_aff g) == ry /\ axis_aligned g /\
+  (1 <= g_nx g)%Z /\ (1 <= g_ny g)%Z /\ 0 < px g /\ 0 < py g /\
+  covers B tol g /\ snug B g /\ alignment_as_requested B snap g.
+Proof.
+  intros (A1 & A2 & A3 & A4 & PX & PY).
+  unfold axis_props in PX, PY. cbv zeta in PX, PY.
+  destruct PX as (X0 & X1 & X2 & X3 & X4 & X5 & X6 & X7 & X8 & X9 & X10).
+  destruct PY as (Y0 & Y1 & Y2 & Y3 & Y4 & Y5 & Y6 & Y7 & Y8 & Y9 & Y10).
+  split; [exact A1|]. split; [exact A2|]. split; [split; assumption|].
+  split; [exact X0|]. split; [exact Y0|]. split; [exact X1|]. split; [exact Y1|].
+  split. { unfold covers, g_left, g_right, g_bottom, g_top, px, py. repeat split; assumption. }
+  split. { unfold snug, g_left, g_right, g_bottom, g_top, px, py. repeat split; assumption. }
+  unfold alignment_as_requested. destruct snap as [[sx sy]|]; simpl in X10, Y10.
+  - intros i. split; [apply X10|apply Y10].
+  - split; assumption.
 Qed.
